@@ -167,6 +167,43 @@ def resource_block(rng, nseg=None, hostile=False):
     return c
 
 
+def resource_block_hostile(rng):
+    """C05/C18: 1-4 segments with gradients and thicknesses across their whole declared ranges, including the regions
+    where the magnitude heuristics of Reservoir.read_parameters bite (gradient <= 1 degC/km, thickness == 100 km),
+    depth 0.1..15 km and Tmax 50..600 so that the cap is active in roughly a third of the cases."""
+    c = []
+    r = rng.random()
+    depth = _round(rng.uniform(0.6, 6.0), 4) if r < 0.7 else _round(rng.choice([0.1, 15, rng.uniform(0.1, 15)]), 4)
+    c.append(['Reservoir Depth', depth])
+    nseg = rng.choice([1, 1, 2, 3, 4])
+    c.append(['Number of Segments', nseg])
+    for k in range(1, nseg + 1):
+        r = rng.random()
+        if r < 0.06:
+            g = rng.choice([0.0, 0.5, 1.0, 1.5, 2.0])
+        elif r < 0.12:
+            g = _round(rng.uniform(0.0, 5.0), 3)
+        elif r < 0.9:
+            g = _round(rng.uniform(15, 110), 4)
+        else:
+            g = _round(rng.uniform(110, 500), 4)
+        c.append([f'Gradient {k}', g])
+        if k < nseg:
+            r = rng.random()
+            if r < 0.05:
+                h = 100.0
+            elif r < 0.1:
+                h = _round(rng.choice([0.01, 99.9, rng.uniform(10, 100)]), 4)
+            else:
+                h = _round(rng.uniform(0.05, 3.0), 3)
+            c.append([f'Thickness {k}', h])
+    r = rng.random()
+    tmax = 400 if r < 0.4 else (_round(rng.uniform(50, 250), 4) if r < 0.85 else _round(rng.uniform(250, 600), 4))
+    c.append(['Maximum Temperature', tmax])
+    c.append(['Surface Temperature', _round(rng.uniform(-5, 35), 3)])
+    return c
+
+
 def wells_block(rng, impedance=None):
     c = [['Number of Production Wells', draw_small_int(rng, 1, 6)],
          ['Number of Injection Wells', draw_small_int(rng, 1, 6)],
@@ -385,12 +422,12 @@ def grid_cells(res_models=(3, 4), econ_models=(1, 2, 3)):
 
 
 def synth_case(rng, cell, *, costs=True, incentives=True, prices=True, addons=None, overpressure=None, nseg=None,
-               impedance=None):
+               impedance=None, resource='plausible'):
     """One synthetic configuration for grid cell (economic model, end-use, plant type, reservoir model)."""
     em, eu, pt, rm = cell
     c = []
     c += reservoir_block(rng, rm)
-    res = resource_block(rng, nseg=nseg)
+    res = resource_block(rng, nseg=nseg) if resource == 'plausible' else resource_block_hostile(rng)
     c += res
     flash = pt in (3, 4) and eu != 2
     c += wells_block(rng, impedance=False if flash else impedance)
